@@ -38,3 +38,13 @@ Print Assumptions C09_never_seen_is_tunnel_error.
 Theorem C09_rejection_codes : GTgen.Params.create_rejection_codes = [14; 14; 3; 12]%N.
 Proof. exact rejection_codes. Qed.
 Print Assumptions C09_rejection_codes.
+
+(* code shape, regenerated from the source on every run (see theories/SkelReceiver.v) *)
+From Coq Require Import String.
+From GT Require Import SkelReceiver.
+From GTgen Require Import Params.
+Local Open Scope string_scope.
+Theorem C09_rev0_accept_shape : skel_noFlowControlReceiver_accept =
+  ["call ingestMu.Lock"; "defer call ingestMu.Unlock"; "select"; "recv closed"; "end"; "select"; "send ch"; "recv closed"; "end"].
+Proof. exact noFlowControlReceiver_accept_shape. Qed.
+Print Assumptions C09_rev0_accept_shape.
